@@ -86,6 +86,10 @@ func classifyBroker(fd *ast.FuncDecl) string {
 	if fd.Type.Params != nil && len(fd.Type.Params.List) == 1 && len(fd.Type.Params.List[0].Names) == 1 {
 		clusterName = fd.Type.Params.List[0].Names[0].Name
 	}
+	recv := "r"
+	if fd.Recv != nil && len(fd.Recv.List) == 1 && len(fd.Recv.List[0].Names) == 1 {
+		recv = fd.Recv.List[0].Names[0].Name
+	}
 	ctrl := clusterName + ".Brokers[" + clusterName + ".Controller]"
 	if len(fd.Body.List) == 1 {
 		if rs, ok := fd.Body.List[0].(*ast.ReturnStmt); ok && len(rs.Results) == 2 {
@@ -93,7 +97,7 @@ func classifyBroker(fd *ast.FuncDecl) string {
 			if s == ctrl && exprString(rs.Results[1]) == "nil" {
 				return "controller"
 			}
-			if strings.HasPrefix(s, clusterName+".Brokers[r.") && exprString(rs.Results[1]) == "nil" {
+			if strings.HasPrefix(s, clusterName+".Brokers["+recv+".") && exprString(rs.Results[1]) == "nil" {
 				return "field"
 			}
 		}
@@ -109,11 +113,11 @@ func classifyBroker(fd *ast.FuncDecl) string {
 				usesAtoi = true
 			}
 		case *ast.RangeStmt:
-			if exprString(x.X) == "r.Topics" {
+			if exprString(x.X) == recv+".Topics" {
 				rangesTopics = true
 			}
 		case *ast.IndexExpr:
-			if exprString(x) == "r.Topics[0]" {
+			if exprString(x) == recv+".Topics[0]" {
 				indexZero = true
 			}
 			if exprString(x) == ctrl {
@@ -122,7 +126,17 @@ func classifyBroker(fd *ast.FuncDecl) string {
 		}
 		return true
 	})
+	hasLoop := false
+	ast.Inspect(fd.Body, func(n ast.Node) bool {
+		switch n.(type) {
+		case *ast.RangeStmt, *ast.ForStmt:
+			hasLoop = true
+		}
+		return true
+	})
 	switch {
+	case usesCtrl && !usesLeader && !usesAtoi && !hasLoop:
+		return "controller" // the same lookup through a local variable
 	case usesLeader && rangesTopics:
 		return "leaderAll"
 	case usesLeader && indexZero:
@@ -211,6 +225,35 @@ func switchCases(repo, file, recv, fn string) ([]string, error) {
 	if err != nil {
 		return nil, err
 	}
+	// local package names → canonical names by import path, so that a renamed import alias changes nothing
+	canon := map[string]string{}
+	for _, im := range f.Imports {
+		path, _ := strconv.Unquote(im.Path.Value)
+		base := path[strings.LastIndex(path, "/")+1:]
+		local := base
+		if im.Name != nil {
+			local = im.Name.Name
+		}
+		switch {
+		case strings.HasSuffix(path, "kafka-go/protocol"):
+			canon[local] = "protocol"
+		case strings.HasSuffix(path, "kafka-go/protocol/metadata"):
+			canon[local] = "meta"
+		}
+	}
+	rename := func(s string) string {
+		star := strings.HasPrefix(s, "*")
+		t := strings.TrimPrefix(s, "*")
+		if i := strings.Index(t, "."); i > 0 {
+			if c, ok := canon[t[:i]]; ok {
+				t = c + t[i:]
+			}
+		}
+		if star {
+			return "*" + t
+		}
+		return t
+	}
 	for _, d := range f.Decls {
 		fd, ok := d.(*ast.FuncDecl)
 		if !ok || fd.Body == nil || fd.Name.Name != fn || recvName(fd) != recv {
@@ -230,7 +273,7 @@ func switchCases(repo, file, recv, fn string) ([]string, error) {
 						out = append(out, "default")
 					}
 					for _, e := range cc.List {
-						out = append(out, exprString(e))
+						out = append(out, rename(exprString(e)))
 					}
 				}
 				return false
